@@ -33,6 +33,11 @@ type Finding struct {
 // Explorer is a preemption-bounded stateless DFS (iterative context bounding).
 type Explorer struct {
 	Bound      int // max preemptions; <0 = unbounded
+	// Delay, when > 0, additionally bounds the number of deviations of any kind from the default
+	// scheduler (the thread that ran last if still enabled, else the lowest thread id): a switch at a
+	// blocking point is free for Bound but counts here. It keeps scenarios with many start-up
+	// threads finite. 0 = no delay bound.
+	Delay      int
 	Run        func(prefix []int, expect []string) *Exec
 	Shard      int
 	NShards    int
@@ -64,7 +69,7 @@ func (e *Explorer) Explore() {
 	if e.MaxFind == 0 {
 		e.MaxFind = 20
 	}
-	e.explore(nil, nil, 0, 0, true)
+	e.explore(nil, nil, 0, 0, 0, true)
 }
 
 func choicesOf(p []PointRec) []int {
@@ -75,7 +80,7 @@ func choicesOf(p []PointRec) []int {
 	return c
 }
 
-func (e *Explorer) explore(prefix []int, expect []string, depth, cost int, owned bool) {
+func (e *Explorer) explore(prefix []int, expect []string, depth, cost, delays int, owned bool) {
 	if !e.Deadline.IsZero() && time.Now().After(e.Deadline) {
 		e.TimedOut = true
 		return
@@ -125,7 +130,7 @@ func (e *Explorer) explore(prefix []int, expect []string, depth, cost int, owned
 		if p.Cost0 {
 			c++
 		}
-		if e.Bound >= 0 && c > e.Bound {
+		if (e.Bound >= 0 && c > e.Bound) || (e.Delay > 0 && delays+1 > e.Delay) {
 			if p.N > 1 {
 				e.CutByBound += int64(p.N - 1)
 			}
@@ -137,7 +142,7 @@ func (e *Explorer) explore(prefix []int, expect []string, depth, cost int, owned
 			for j := 0; j <= i; j++ {
 				ne[j] = x.Points[j].Sig
 			}
-			e.explore(np, ne, depth+1, c, mine)
+			e.explore(np, ne, depth+1, c, delays+1, mine)
 			if e.TimedOut {
 				return
 			}
